@@ -40,6 +40,7 @@ theorem send_entered_only_by_check (s s' : State) (e : Event) (o : Out) (i : Nat
       s.holder = none ∧ s'.holder = some i := by
   cases e with
   | envRepeat v => simp only [step] at hs; cases hs; exact absurd h1 (h0 p)
+  | rxOther => simp only [step] at hs; cases hs; exact absurd h1 (h0 p)
   | close =>
     simp only [step] at hs
     split at hs
